@@ -44,7 +44,7 @@ class ProcResult:
         if self.signal is not None:
             return "killed by signal %d" % self.signal
         err = self.stderr
-        for needle in (b"panicked at", b"has overflowed its stack", b"fatal runtime error", b"RUST_BACKTRACE"):
+        for needle in (b"panicked at", b"has overflowed its stack", b"fatal runtime error", b"RUST_BACKTRACE", b"AddressSanitizer"):
             if needle in err:
                 return "stderr contains %r" % needle.decode()
         if self.status not in (0, 1, 2):
@@ -131,9 +131,27 @@ class Worker:
         env = dict(os.environ)
         env.pop("RUST_BACKTRACE", None)
         env.pop("CLICOLOR_FORCE", None)
+        self.errpath = None
+        err = subprocess.DEVNULL
+        if os.environ.get("VERIF_WORKER_STDERR_DIR"):
+            # sanitizer builds: keep what the worker writes to stderr so that a report can be attached to the case in flight
+            self.errpath = os.path.join(os.environ["VERIF_WORKER_STDERR_DIR"], "worker-%d-%d.err" % (os.getpid(), self.restarts))
+            err = open(self.errpath, "wb")
         self.p = subprocess.Popen([self.path, "worker"], stdin=subprocess.PIPE, stdout=subprocess.PIPE,
-                                  stderr=subprocess.DEVNULL, env=env, cwd="/")
+                                  stderr=err, env=env, cwd="/")
+        if err is not subprocess.DEVNULL:
+            err.close()
         self.buf = b""
+
+    def stderr_tail(self, n=20000):
+        if not self.errpath:
+            return b""
+        try:
+            with open(self.errpath, "rb") as f:
+                data = f.read()
+            return data[-n:]
+        except OSError:
+            return b""
 
     def close(self):
         if self.p:
@@ -191,8 +209,12 @@ class Worker:
         except WorkerDied as d:
             if d.how == "timeout":
                 self.timeouts += 1
+            tail = self.stderr_tail()
             self._restart()
-            return {"died": d.how}
+            r = {"died": d.how}
+            if tail:
+                r["stderr_tail"] = tail.decode(errors="replace")
+            return r
 
     def batch(self, cases, defaults=None):
         """Runs cases in order; returns a list of responses (same length). A case that kills the worker gets
@@ -218,6 +240,9 @@ class Worker:
                 start = len(cases)
             except WorkerDied as d:
                 results[start + done] = {"died": d.how}
+                tail = self.stderr_tail()
+                if tail:
+                    results[start + done]["stderr_tail"] = tail.decode(errors="replace")
                 start = start + done + 1
                 if d.how == "timeout":
                     self.timeouts += 1
@@ -255,6 +280,11 @@ def stderr_panic(stderr):
         return {"location": m.group(1).decode(errors="replace"), "message": m.group(2).decode(errors="replace")}
     if b"has overflowed its stack" in stderr:
         return {"location": "stack", "message": "stack overflow"}
+    m = re.search(rb"SUMMARY: AddressSanitizer: (\S+) (\S+)(?: in (\S+))?", stderr)
+    if m:
+        loc = m.group(2).decode(errors="replace")
+        loc = re.sub(r"^.*?/(slicec|slice-codec)/src/", r"\1/src/", loc)
+        return {"location": re.sub(r":\d+(:\d+)?$", "", loc), "message": "AddressSanitizer: " + m.group(1).decode(errors="replace")}
     return None
 
 
@@ -376,7 +406,9 @@ class Run:
         self.stats.update(r["stats"])
         self.violations.extend(r["violations"])
         for s in r["samples"]:
-            if len(self.samples) < 12:
+            fam = s.get("family") if isinstance(s, dict) else None
+            same = sum(1 for t in self.samples if isinstance(t, dict) and t.get("family") == fam) if fam else 0
+            if len(self.samples) < 16 and s not in self.samples and same < 2:
                 self.samples.append(s)
         self.nontrivial |= r["nontrivial"]
         self.inconclusive.extend(r["inconclusive"])
@@ -424,7 +456,10 @@ def finish(run, level, rule, required=None, assumptions=None, exhaustive=None, e
     new = {s: vs for s, vs in by_sig.items() if s not in open_sigs}
     seen_known = {s: vs for s, vs in by_sig.items() if s in open_sigs}
 
-    rdir = os.path.join(VERIF, "replays", prop)
+    # runs against a scratch copy of the repository (VERIF_REPO, used for seeded changes) never touch the evidence of /repo
+    from . import build as _build
+    outroot = VERIF if _build.tag() == "repo" else _build.tdir()
+    rdir = os.path.join(outroot, "replays", prop)
     lines = []
     if new:
         os.makedirs(rdir, exist_ok=True)
@@ -456,7 +491,7 @@ def finish(run, level, rule, required=None, assumptions=None, exhaustive=None, e
         "evaluations": run.evaluations,
         "distinct_nontrivial": distinct,
         "rule": rule,
-        "samples": run.samples[:12] or ["<none>"],
+        "samples": run.samples[:16] or ["<none>"],
         "observed": dict(sorted(run.stats.items())),
         "inconclusive": len(run.inconclusive),
         "inconclusive_samples": run.inconclusive[:5],
@@ -473,8 +508,8 @@ def finish(run, level, rule, required=None, assumptions=None, exhaustive=None, e
         "property_id": prop, "tier": run.tier, "seed": run.seed, "level": level, "coverage": coverage,
         "assumptions": assumptions or [], "wall_s": round(time.time() - T0, 2), "violations": len(new),
     }
-    os.makedirs(os.path.join(VERIF, "evidence"), exist_ok=True)
-    with open(os.path.join(VERIF, "evidence", prop + ".json"), "w") as f:
+    os.makedirs(os.path.join(outroot, "evidence"), exist_ok=True)
+    with open(os.path.join(outroot, "evidence", prop + ".json"), "w") as f:
         json.dump(ev, f, indent=1, default=str)
 
     for l in lines:
